@@ -433,7 +433,38 @@ def run(ck):
         ok = good
     ck.ob('DT-domain', mod.loc(mk), ok, 'region domain: two atoms share a domain iff SOME region contains both input residue numbers (bounds inclusive, either order); '
           'every region is tried', key='DT-domain|same_region')
+    cli_regions(ck)
     shared.truthy_zero(ck, [RB])
     shared.runs_every_molecule(ck, 'vermouth/processors/apply_rubber_band.py', 'ApplyRubberBand', 'MPT-every-molecule')
     shared.residue_graph_rules(ck, 'PROV-connectivity')
     ck.assume('matrix index arithmetic of numpy and the numeric values of the decay are not decided beyond the sample grid')
+
+
+def cli_regions(ck):
+    """bin/martinize2 -eunit <a>:<b>,<c>:<d>: the regions handed to make_same_region_criterion are the written intervals, sign included (input residue numbers may be
+    negative).  The statement that builds `regions` is interpreted on sample option values."""
+    from .. import interp
+    cli = ck.index.mod('bin/martinize2')
+    ent = cli.func('entry')
+    defs = [s_ for s_ in walk_local(ent) if isinstance(s_, ast.Assign) and u(s_.targets[0]) == 'regions']
+    ck.need(len(defs) == 1, 'bin/martinize2: the statement that builds `regions` from -eunit was not found')
+    cases = {'12:26': [(12, 26)], '1:10,20:30': [(1, 10), (20, 30)], '12:26,-9:8': [(12, 26), (-9, 8)], '-20:-11': [(-20, -11)], '5:5': [(5, 5)], '0:3': [(0, 3)]}
+    bad = None
+    try:
+        import re as _re
+        for text, want in cases.items():
+            env = {'args.rb_unit': text, 're.findall': _re.findall, 're.split': _re.split, 're.fullmatch': _re.fullmatch, 're.match': _re.match}
+            interp.run_stmts([defs[0]], env)
+            got = [tuple(r) for r in env.get('regions', [])]
+            if got != want:
+                bad = '-eunit {} gives the regions {} (written: {})'.format(text, got, want)
+                break
+    except interp.Unsupported as err:
+        bad = 'could not be interpreted: {}'.format(err)
+    except (ValueError, TypeError) as err:
+        bad = 'fails on a well-formed option value: {}'.format(err)
+    ck.ob('KW-wiring', cli.loc(defs[0]), bad is None, 'the residue intervals of -eunit reach the domain criterion as written, negative numbers included ({} option values interpreted){}'.format(
+        len(cases), '' if bad is None else ' -- ' + bad), key='KW-wiring|eunit|regions')
+    calls = [c for c in walk_local(ent) if isinstance(c, ast.Call) and u(c.func).endswith('make_same_region_criterion')]
+    ck.ob('KW-wiring', cli.loc(defs[0]), len(calls) == 1 and [u(a) for a in calls[0].args] == ['regions'], 'those regions are what make_same_region_criterion receives',
+          key='KW-wiring|eunit|passed')
